@@ -141,6 +141,13 @@ fn variants(vs: Vec<String>) -> String {
     s
 }
 
+/// written (and flushed) before the library is called: if the process dies inside the call (take_mut::take in
+/// unary_op_inplace aborts on a panic) the parent records the case with the outcome `panic`
+fn pre(line: &str) {
+    use std::io::Write;
+    println!("PRE {}", line);
+    std::io::stdout().flush().unwrap();
+}
 fn one_case(r: &mut Rng, id: usize, out: &mut String) {
     let n = 1 + r.below(3);
     let m = 1 + r.below(2);
@@ -159,6 +166,7 @@ fn one_case(r: &mut Rng, id: usize, out: &mut String) {
     if kind < 6 {
         let bm = if r.chance(1, 15) { m + 1 } else { m };
         let b: AffTree<2> = gen_operand(r, n, bm, cfg_b, op == "div");
+        pre(&format!("(case {} tt {} {} {} (variants panic) (pts ))", id, op, sx_tree(&a), sx_tree(&b)));
         let vs = binop(op, &a, &b);
         // evaluate() of the first variant on sampled points
         let pts = match catch(AssertUnwindSafe(|| match op {
@@ -173,14 +181,17 @@ fn one_case(r: &mut Rng, id: usize, out: &mut String) {
         out.push_str(&format!("(case {} tt {} {} {} {} {})\n", id, op, sx_tree(&a), sx_tree(&b), variants(vs), pts));
     } else if kind < 8 {
         let f = if op == "div" { gen_divisor(r, m, n) } else { gen_aff(r, m, n, 6) };
+        pre(&format!("(case {} tf {} {} {} (variants panic) (pts ))", id, op, sx_tree(&a), sx_aff(&f)));
         let vs = tf(op, &a, &f);
         out.push_str(&format!("(case {} tf {} {} {} {} (pts ))\n", id, op, sx_tree(&a), sx_aff(&f), variants(vs)));
     } else if kind < 9 {
         let f = gen_aff(r, m, n, 6);
         let a2 = if op == "div" { divisor_tree(r, n, m, cfg) } else { a };
+        pre(&format!("(case {} ft {} {} {} (variants panic) (pts ))", id, op, sx_tree(&a2), sx_aff(&f)));
         let vs = ft(op, &f, &a2);
         out.push_str(&format!("(case {} ft {} {} {} {} (pts ))\n", id, op, sx_tree(&a2), sx_aff(&f), variants(vs)));
     } else {
+        pre(&format!("(case {} neg neg {} - (variants panic) (pts ))", id, sx_tree(&a)));
         let v = catch(AssertUnwindSafe(|| -a.clone()));
         out.push_str(&format!("(case {} neg neg {} - {} (pts ))\n", id, sx_tree(&a), variants(vec![res(v)])));
     }
@@ -190,11 +201,48 @@ fn main() {
     silence_panics();
     let argv: Vec<String> = std::env::args().collect();
     let args = &parse_args(&argv[1..]);
+    // child mode: one case, in its own process
+    if let Some(i) = args.rest.iter().position(|a| a == "--child") {
+        let state: u64 = args.rest[i + 1].parse().unwrap();
+        let id: usize = args.rest[i + 2].parse().unwrap();
+        let mut cr = Rng(state);
+        let mut out = String::new();
+        one_case(&mut cr, id, &mut out);
+        print!("{}", out);
+        return;
+    }
+    let exe = std::env::current_exe().unwrap();
     let mut r = Rng::new(args.seed ^ 0xC07);
     let mut out = String::new();
     for id in 0..args.n {
-        let mut cr = r.fork();
-        one_case(&mut cr, id, &mut out);
+        let cr = r.fork();
+        let outp = std::process::Command::new(&exe)
+            .args(["--child", &cr.0.to_string(), &id.to_string()])
+            .stderr(std::process::Stdio::null())
+            .output()
+            .expect("spawn child");
+        let text = String::from_utf8_lossy(&outp.stdout).to_string();
+        let mut pre_line: Option<String> = None;
+        let mut case_line: Option<String> = None;
+        for l in text.lines() {
+            if let Some(rest) = l.strip_prefix("PRE ") {
+                pre_line = Some(rest.to_string());
+            } else if l.starts_with("(case ") {
+                case_line = Some(l.to_string());
+            }
+        }
+        match (outp.status.success(), case_line, pre_line) {
+            (true, Some(c), _) => {
+                out.push_str(&c);
+                out.push('\n');
+            }
+            (_, _, Some(p)) => {
+                // the process died inside the library call
+                out.push_str(&p);
+                out.push('\n');
+            }
+            _ => {}
+        }
         if out.len() > 1 << 20 {
             print!("{}", out);
             out.clear();
